@@ -94,6 +94,8 @@ MUTANTS = [
     ("C18", "seeded C18r-1: matrix of dual-number entries shown with the wrong shape", "@patch", "/verif/seeded/C18r-1/patch.diff", None),
     ("C05", "seeded C05s-1: mixed block dropped when a first-order part of a hand-built result is absent", "@patch", "/verif/seeded/C05s-1/patch.diff", None),
     ("C05", "seeded C05s-2: symmetry assertion on the Hessian fires on rounding residue", "@patch", "/verif/seeded/C05s-2/patch.diff", None),
+    ("C05", "seeded C05w-1: a -0.0 coordinate reaches the closure as +0.0", "@patch", "/verif/seeded/C05w-1/patch.diff", None),
+    ("C17", "seeded C17w-2: gradient hands the callable a tuple for 11 variables and more", "@patch", "/verif/seeded/C17w-2/patch.diff", None),
     ("C17", "seeded C17s-2: a note attached to the callable's exception", "@patch", "/verif/seeded/C17s-2/patch.diff", None),
     ("C18", "seeded C18s-1: nested matrix part written as one flat list", "@patch", "/verif/seeded/C18s-1/patch.diff", None),
     ("C18", "seeded C18s-2: symbol written inside the closing bracket", "@patch", "/verif/seeded/C18s-2/patch.diff", None),
